@@ -406,13 +406,16 @@ Lemma token_step : forall t prev out rest clen,
   (if is_copy t
    then do_copy (N.of_nat (length prev))
           (mkst (enc_token (N.of_nat (length out)) t ++ rest) (vec_of (prev ++ out)) clen)
-   else do_literal
+   else do_literal (N.of_nat (length prev))
           (mkst (enc_token (N.of_nat (length out)) t ++ rest) (vec_of (prev ++ out)) clen))
   = Ok (mkst rest (vec_of (prev ++ sem_token out t))
           (clen + N.of_nat (length (enc_token (N.of_nat (length out)) t)))).
 Proof.
   intros [b|off len] prev out rest clen Hv; cbn [is_copy enc_token sem_token].
-  - unfold do_literal. cbn [st_in app st_res st_clen length].
+  - cbn [valid_tokenb] in Hv. unfold CHUNK in Hv. apply andb_true_iff in Hv. destruct Hv as [_ Hpos].
+    unfold do_literal. cbn [st_in app st_res st_clen length].
+    rewrite vec_of_len, app_length. unfold CHUNK.
+    destruct (N.leb_spec 4096 (N.of_nat (length prev + length out) - N.of_nat (length prev))) as [?|_]; [lia|].
     rewrite vec_push_of, app_assoc. reflexivity.
   - cbn [valid_tokenb] in Hv. unfold CHUNK in Hv.
     repeat (apply andb_true_iff in Hv; destruct Hv as [Hv ?]).
@@ -422,7 +425,9 @@ Proof.
     unfold do_copy. cbn [st_in st_res st_clen]. rewrite le16_read. cbn [obind].
     rewrite vec_of_len, app_length.
     replace (N.of_nat (length prev + length out) - N.of_nat (length prev)) with pos by lia.
-    rewrite Hcodec. cbn [obind].
+    rewrite Hcodec. cbn [obind]. unfold CHUNK.
+    destruct (N.ltb_spec 4096 (pos + len)) as [?|_]; [lia|].
+    destruct (N.ltb_spec (N.of_nat (length prev + length out)) off) as [?|_]; [lia|].
     destruct (overlap_copy_exec (prev ++ out) off len) as (len' & res1 & E1 & E2);
       [rewrite app_length; lia|lia|lia|].
     rewrite E1. cbn [obind]. rewrite E2. cbn [obind].
@@ -757,6 +762,7 @@ Proof.
     cbn [obind]; try exact I.
   2:{ unfold copy_token_fields in Ef. destruct (bit_count_of _); cbn [of_option obind] in Ef; discriminate. }
   destruct (copy_token_fields_bounds _ _ _ _ Ef) as [Hl Ho].
+  destruct (CHUNK <? _); [exact I|]. destruct (v_len res <? off); [exact I|].
   pose proof (copy_loop_no_fuel (N.to_nat len) len off res ltac:(lia) ltac:(lia) (le_n _)) as Hnf.
   destruct (copy_loop (N.to_nat len) len off res) as [[len' res1]|e| |]; cbn [obind]; try exact I;
     [|congruence].
@@ -764,9 +770,10 @@ Proof.
   destruct (off <? len'); [exact I|]. cbn [obind fine st_in skipn length]. lia.
 Qed.
 
-Lemma do_literal_fine : forall st, fine (length (st_in st)) (do_literal st).
+Lemma do_literal_fine : forall start st, fine (length (st_in st)) (do_literal start st).
 Proof.
-  intros [s res clen]. unfold do_literal. cbn [st_in]. destruct s as [|b s]; [exact I|].
+  intros start [s res clen]. unfold do_literal. cbn [st_in st_res]. destruct (CHUNK <=? _); [exact I|].
+  destruct s as [|b s]; [exact I|].
   cbn [fine st_in length]. lia.
 Qed.
 
@@ -779,7 +786,7 @@ Lemma token_loop_fine : forall n bit_index flags chunk_size start st,
 Proof.
   induction n as [|n IH]; intros bit_index flags chunk_size start st; cbn [token_loop]; [lia|].
   destruct (chunk_size <? st_clen st); [lia|].
-  set (o := if N.land flags (N.shiftl 1 bit_index) =? 0 then do_literal st else do_copy start st).
+  set (o := if N.land flags (N.shiftl 1 bit_index) =? 0 then do_literal start st else do_copy start st).
   assert (Ho : fine (length (st_in st)) o).
   { unfold o. destruct (_ =? 0); [apply do_literal_fine|apply do_copy_fine]. }
   destruct o as [st'|e| |]; cbn [obind fine] in *; try exact I; [|contradiction].
@@ -823,6 +830,209 @@ Proof.
   destruct (negb _); [discriminate|].
   pose proof (chunks_loop_no_fuel (length (sig :: s)) s vec_empty ltac:(cbn [length]; lia)) as H.
   destruct (chunks_loop _ s vec_empty); cbn [obind]; congruence.
+Qed.
+
+(* ========================================================================================== *)
+(* 6b. [decompress] is total: no input panics, the output of a chunk is at most 4096 bytes      *)
+(* ========================================================================================== *)
+Lemma land_lt_pow2 : forall a b n, b < 2 ^ n -> N.land a b < 2 ^ n.
+Proof.
+  intros a b n H. destruct (N.eq_dec (N.land a b) 0) as [E|E].
+  - rewrite E. assert (2 ^ n <> 0) by (apply N.pow_nonzero; lia). lia.
+  - assert (Hb : b <> 0). { intro; subst b. rewrite N.land_0_r in E. congruence. }
+    apply N.log2_lt_pow2; [lia|].
+    pose proof (N.log2_land a b) as Hl. assert (N.log2 b < n) by (apply N.log2_lt_pow2; lia). lia.
+Qed.
+
+(* inside a chunk (at most 4096 bytes produced so far) the [unwrap] of the bit-count search
+   succeeds and the offset field is at most 2^12: [buf[..offset]] is in bounds *)
+Lemma copy_token_fields_total : forall d t, d <= 4096 ->
+  exists len off, copy_token_fields d t = Ok (len, off) /\ 3 <= len /\ 1 <= off <= 4096.
+Proof.
+  intros d t Hd. unfold copy_token_fields. rewrite (bit_count_of_spec d) by lia.
+  cbn [of_option obind].
+  destruct (spec_bit_count_bounds d Hd) as [Hb _]. set (bc := spec_bit_count d) in *. clearbody bc.
+  eexists _, _. split; [reflexivity|]. split; [lia|]. split; [lia|].
+  assert (Hbc : bc = 4 \/ bc = 5 \/ bc = 6 \/ bc = 7 \/ bc = 8 \/ bc = 9 \/ bc = 10 \/ bc = 11 \/ bc = 12) by lia.
+  clear Hb.
+  repeat (destruct Hbc as [Hbc|Hbc]); subst bc;
+    match goal with |- N.shiftr (N.land t ?m) ?k + 1 <= 4096 =>
+      let mv := eval vm_compute in m in
+      let kv := eval vm_compute in k in
+      let pv := eval vm_compute in (2 ^ k) in
+      change m with mv; change k with kv;
+      pose proof (land_lt_pow2 t mv 16 ltac:(vm_compute; reflexivity)) as Hl;
+      rewrite N.shiftr_div_pow2; change (2 ^ kv) with pv; change (2 ^ 16) with 65536 in Hl; lia
+    end.
+Qed.
+
+(* the invariant of the loops of one chunk: the Vec is consistent, the chunk started inside it
+   and has produced at most 4096 bytes *)
+Definition inv (start : N) (st : cstate) : Prop :=
+  vec_ok (st_res st) /\ start <= v_len (st_res st) /\ v_len (st_res st) - start <= 4096.
+
+Definition total (start : N) (n : nat) (o : outcome cstate) : Prop :=
+  match o with
+  | Ok st' => inv start st' /\ (length (st_in st') <= n)%nat
+  | Err _ => True
+  | Panic => False
+  | OutOfFuel => False
+  end.
+
+Lemma do_literal_total : forall start st, inv start st ->
+  total start (length (st_in st)) (do_literal start st).
+Proof.
+  intros start [s res clen] (Hok & Hst & Hd). cbn [st_res st_in] in *. unfold do_literal.
+  cbn [st_in st_res st_clen]. unfold CHUNK.
+  destruct (N.leb_spec 4096 (v_len res - start)) as [?|Hlt]; [exact I|].
+  destruct s as [|b s]; [exact I|]. cbn [total st_in length]. split; [|lia].
+  unfold inv, vec_ok, vec_push in *. cbn [st_res v_rev v_len length]. repeat split; lia.
+Qed.
+
+Lemma do_copy_total : forall start st, inv start st ->
+  total start (length (st_in st)) (do_copy start st).
+Proof.
+  intros start [s res clen] (Hok & Hst & Hd). cbn [st_res st_in] in *. unfold do_copy.
+  cbn [st_in st_res st_clen].
+  destruct s as [|a [|b s]]; cbn [read_u16 obind]; [exact I|exact I|].
+  destruct (copy_token_fields_total (v_len res - start) (a + 256 * b) Hd)
+    as (len & off & E & Hl & Ho1 & Ho2).
+  rewrite E. cbn [obind]. unfold CHUNK.
+  destruct (N.ltb_spec 4096 (v_len res - start + len)) as [?|Hfit]; [exact I|].
+  destruct (N.ltb_spec (v_len res) off) as [?|Hoff]; [exact I|].
+  destruct (copy_loop_spec (N.to_nat len) len off res Hok)
+    as (len' & res1 & E1 & H1 & H2 & H3 & H4 & H5); try lia.
+  rewrite E1. cbn [obind]. unfold copy_tail.
+  destruct (N.ltb_spec 4096 len') as [?|_]; [lia|].
+  destruct (N.ltb_spec (v_len res1) off) as [?|_]; [lia|].
+  destruct (N.ltb_spec off len') as [?|_]; [lia|].
+  cbn [obind total st_in skipn length].
+  assert (Hlen1 : v_len res1 = v_len res + (len - len')).
+  { unfold vec_ok in H3, Hok. rewrite H3, H5, citer_length. lia. }
+  split; [|lia]. unfold inv. cbn [st_res]. unfold vec_ok, vec_extend_rev, vec_tail_rev.
+  cbn [v_rev v_len]. rewrite app_length, skipn_length, firstn_length. unfold vec_ok in H3.
+  repeat split; lia.
+Qed.
+
+Lemma token_loop_total : forall n bit_index flags chunk_size start st, inv start st ->
+  match token_loop n bit_index flags chunk_size start st with
+  | Ok (_, st') => inv start st' /\ (length (st_in st') <= length (st_in st))%nat
+  | Err _ => True
+  | Panic => False
+  | OutOfFuel => False
+  end.
+Proof.
+  induction n as [|n IH]; intros bit_index flags chunk_size start st Hi; cbn [token_loop].
+  { split; [exact Hi|lia]. }
+  destruct (chunk_size <? st_clen st); [split; [exact Hi|lia]|].
+  set (o := if N.land flags (N.shiftl 1 bit_index) =? 0 then do_literal start st else do_copy start st).
+  assert (Ho : total start (length (st_in st)) o).
+  { unfold o. destruct (_ =? 0); [apply do_literal_total|apply do_copy_total]; exact Hi. }
+  destruct o as [st'|e| |]; cbn [obind total] in *; try exact I; try contradiction.
+  destruct Ho as [Hi' Hl'].
+  specialize (IH (bit_index + 1) flags chunk_size start st' Hi').
+  destruct (token_loop n (bit_index + 1) flags chunk_size start st') as [[brk st'']|e| |]; auto.
+  destruct IH as [Hi'' Hl'']. split; [exact Hi''|lia].
+Qed.
+
+Lemma chunk_loop_total : forall fuel chunk_size start st,
+  (length (st_in st) < fuel)%nat -> inv start st ->
+  total start (length (st_in st)) (chunk_loop fuel chunk_size start st).
+Proof.
+  induction fuel as [|f IH]; intros chunk_size start [s res clen] Hf Hi; [lia|].
+  cbn [st_in] in *. cbn [chunk_loop st_in st_res st_clen].
+  destruct s as [|flags s]; [cbn [total st_in length]; split; [exact Hi|lia]|].
+  destruct (chunk_size <? clen); [cbn [total st_in]; split; [exact Hi|lia]|].
+  assert (Hi1 : inv start (mkst s res (clen + 1))) by exact Hi.
+  pose proof (token_loop_total 8 0 flags chunk_size start (mkst s res (clen + 1)) Hi1) as Ht.
+  destruct (token_loop 8 0 flags chunk_size start (mkst s res (clen + 1))) as [[brk st']|e| |];
+    cbn [obind total st_in length] in *; try exact I; try contradiction.
+  destruct Ht as [Hi' Hl'].
+  destruct brk; [cbn [total]; split; [exact Hi'|lia]|].
+  specialize (IH chunk_size start st' ltac:(lia) Hi').
+  destruct (chunk_loop f chunk_size start st') as [st''|e| |]; cbn [total] in *; auto.
+  destruct IH as [Hi'' Hl'']. split; [exact Hi''|lia].
+Qed.
+
+Lemma chunks_loop_total : forall fuel s res, (length s < fuel)%nat -> vec_ok res ->
+  match chunks_loop fuel s res with
+  | Ok res' => vec_ok res' /\ v_len res' <= v_len res + 4096 * N.of_nat (chunks_count fuel s res)
+  | Err _ => True
+  | Panic => False
+  | OutOfFuel => False
+  end /\ (2 * chunks_count fuel s res <= length s)%nat.
+Proof.
+  induction fuel as [|f IH]; intros s res Hf Hok; [lia|].
+  cbn [chunks_loop chunks_count]. destruct s as [|a s]; [split; [split; [exact Hok|lia]|lia]|].
+  destruct s as [|b s]; cbn [read_u16 obind skipn]; [split; [exact I|lia]|].
+  cbn [length] in Hf.
+  destruct (negb (N.shiftr (N.land (a + 256 * b) 28672) 12 =? 3)); [split; [exact I|lia]|].
+  destruct (N.shiftr (N.land (a + 256 * b) 32768) 15 =? 0).
+  - (* raw chunk *)
+    destruct (N.ltb_spec (N.of_nat (length (firstn (N.to_nat CHUNK) s))) CHUNK) as [?|Hblk];
+      [split; [exact I|lia]|].
+    set (blk := firstn (N.to_nat CHUNK) s) in *.
+    assert (Hblen : length blk = N.to_nat CHUNK).
+    { unfold blk in *. rewrite firstn_length in *. unfold CHUNK in *. lia. }
+    set (res1 := vec_extend_rev res (rev_append blk [])).
+    assert (Hok1 : vec_ok res1).
+    { unfold res1, vec_ok, vec_extend_rev in *. cbn [v_rev v_len]. rewrite app_length. lia. }
+    assert (Hl1 : v_len res1 = v_len res + 4096).
+    { unfold res1, vec_extend_rev. cbn [v_len]. rewrite rev_append_nil, rev_length, Hblen.
+      unfold CHUNK. lia. }
+    pose proof (skipn_length (N.to_nat CHUNK) s) as Hsk.
+    destruct (IH (skipn (N.to_nat CHUNK) s) res1 ltac:(lia) Hok1) as [IH1 IH2].
+    split; [|cbn [length]; lia].
+    destruct (chunks_loop f (skipn (N.to_nat CHUNK) s) res1) as [res'|e| |]; auto.
+    destruct IH1 as [Hok' Hb']. split; [exact Hok'|lia].
+  - (* compressed chunk *)
+    assert (Hi0 : inv (v_len res) (mkst s res 0)).
+    { unfold inv. cbn [st_res]. repeat split; [exact Hok|lia|lia]. }
+    pose proof (chunk_loop_total f (N.land (a + 256 * b) 4095) (v_len res) (mkst s res 0)
+                  ltac:(cbn [st_in]; lia) Hi0) as Hc.
+    cbn [st_in] in Hc.
+    destruct (chunk_loop f (N.land (a + 256 * b) 4095) (v_len res) (mkst s res 0)) as [st|e| |];
+      cbn [obind total] in *; try contradiction; [|split; [exact I|lia]].
+    destruct Hc as [(Hok' & Hst' & Hd') Hl'].
+    destruct (IH (st_in st) (st_res st) ltac:(lia) Hok') as [IH1 IH2].
+    split; [|cbn [length]; lia].
+    destruct (chunks_loop f (st_in st) (st_res st)) as [res'|e| |]; auto.
+    destruct IH1 as [Hok'' Hb'']. split; [exact Hok''|lia].
+Qed.
+
+Lemma vec_to_list_length : forall v, vec_ok v -> N.of_nat (length (vec_to_list v)) = v_len v.
+Proof.
+  intros v H. unfold vec_to_list. rewrite rev_append_nil, rev_length. unfold vec_ok in H. lia.
+Qed.
+
+(* EVERY input (no well-formedness hypothesis): decompress_stream does not panic, the fuel
+   [length s] of the model is enough, and a successful decompression yields at most 4096 bytes
+   per chunk header processed — of which there are at most (|s| - 1) / 2 *)
+Theorem decompress_total : forall s,
+  decompress s <> Panic /\ decompress s <> OutOfFuel /\
+  (forall out, decompress s = Ok out -> N.of_nat (length out) <= 4096 * N.of_nat (n_chunks s)) /\
+  (2 * n_chunks s <= length s - 1)%nat.
+Proof.
+  intro s. unfold decompress, decompress_fuel, n_chunks. destruct s as [|sig s].
+  { repeat split; try discriminate. cbn. lia. }
+  cbn [tl].
+  assert (Hv : vec_ok vec_empty) by reflexivity.
+  destruct (chunks_loop_total (length (sig :: s)) s vec_empty ltac:(cbn [length]; lia) Hv) as [H1 H2].
+  destruct (negb (sig =? 1)).
+  { repeat split; try discriminate. cbn [length] in *. lia. }
+  destruct (chunks_loop (length (sig :: s)) s vec_empty) as [res|e| |]; cbn [obind] in *;
+    try contradiction.
+  - destruct H1 as [Hok Hb]. repeat split; try discriminate; [|cbn [length] in *; lia].
+    intros out E. injection E as <-. rewrite vec_to_list_length by exact Hok.
+    change (v_len vec_empty) with 0 in Hb. lia.
+  - repeat split; try discriminate. cbn [length] in *. lia.
+Qed.
+
+Theorem module_content_total : forall s off,
+  module_content s off <> Panic /\ module_content s off <> OutOfFuel.
+Proof.
+  intros s off. unfold module_content. destruct (_ <? off); [split; discriminate|].
+  destruct (decompress_total (skipn (N.to_nat off) s)) as (H1 & H2 & _). split; assumption.
 Qed.
 
 (* ========================================================================================== *)
